@@ -23,6 +23,9 @@ NoCon == [c |-> "none", lb |-> 0, ub |-> 0, ext |-> FALSE]
 Rng(lb, ub, ext) == [c |-> "rng", lb |-> lb, ub |-> ub, ext |-> ext]
 NoSz == [c |-> "none", lb |-> 0, ub |-> 0, ext |-> FALSE]
 Sz(lb, ub, ext) == [c |-> "sz", lb |-> lb, ub |-> ub, ext |-> ext]
+\* SIZE(lb..MAX): an upper bound beyond every length that is explored; any ub >= 64K selects the same
+\* (unconstrained) length determinant, 11.9.4.2, and the lower bound stays in force
+SzMAX == 1073741823
 
 TBool == [k |-> "bool"]
 TNull == [k |-> "null"]
